@@ -65,6 +65,6 @@ Print Assumptions C35_monitor_sound.
 Example C35_nonvacuous :
   let es := map mk_entry [(1,1,0); (1,1,1); (1,1,1); (2,1,1); (1,1,2); (1,2,2); (1,2,5)] in
   nondecreasing_runs es /\ count Redelivered [] es = 1 /\
-  run [[(1,1,0); (1,1,1)]; [(1,1,1); (2,1,1); (1,1,2)]; [(1,2,2); (1,2,5)]]
-  = [(1,1,1,2); (2,1,1,1); (1,1,2,1); (1,2,5,2)].
+  run [[[(1,1,0); (1,1,1)]; [(1,1,1); (2,1,1); (1,1,2)]; [(1,2,2); (1,2,5)]]; [[(1,2,6)]]]
+  = [[(1,1,1,2); (2,1,1,1); (1,1,2,1); (1,2,5,2)]; [(1,2,6,1)]].
 Proof. vm_compute. intuition discriminate. Qed.
